@@ -1,16 +1,90 @@
-import CalVerif.Model.XlsxCells
-import CalVerif.Spec.XlsxSheet
+import CalVerif.Lemmas.XlsxA1
 /-! # C01 — XLSX: every cell reads back at its position, with its value and type
-    Property theorems only. -/
+    Property theorems only (helper lemmas: `Lemmas/XlsxA1.lean`, `Lemmas/XlsxSheet.lean`).
+    Model: `Model/XlsxCells.lean` (reader on XML events); encoder: `Spec/XlsxSheet.lean`. -/
 namespace XlsxCells
+open XlsxSheet
 
-/-- `column_number_to_name` accepts exactly the columns below `MAX_COLUMNS` -/
-theorem colname_domain (c : Nat) : (columnNumberToName c).isOk = decide (c < 16384) := by
+/-! ## cell references -/
+
+/-- `column_number_to_name` writes, for every legal column, letters whose bijective base-26 value is the
+    1-based column number (and refuses every other column) -/
+theorem col_name_roundtrip (c : Nat) (hc : c < 16384) :
+    ∃ name, columnNumberToName c = .ok name ∧ valLE26 65 name.reverse = c + 1 ∧ ∀ x ∈ name, 65 ≤ x ∧ x ≤ 90 := by
+  refine ⟨(colLE (c + 1)).reverse, ?_, ?_, ?_⟩
+  · unfold columnNumberToName maxColumns
+    rw [if_neg (by omega)]
+  · rw [List.reverse_reverse, valLE26_colLE]
+  · intro x hx; exact colLE_letters _ x (List.mem_reverse.mp hx)
+
+theorem col_name_domain (c : Nat) : (columnNumberToName c).isOk = decide (c < 16384) := by
   unfold columnNumberToName maxColumns
   by_cases h : c ≥ 16384
   · have : ¬ c < 16384 := by omega
     simp [h, this, Res.isOk]
   · have : c < 16384 := by omega
     simp [h, this, Res.isOk]
+
+/-- `coordinate_to_name` writes the reference `refName` (upper-case letters, 1-based decimal row) -/
+theorem coord_name (r c : Nat) (hr : r < 1048576) (hc : c < 16384) :
+    coordToName r c = .ok (refName false r c) := by
+  unfold coordToName columnNumberToName maxColumns
+  rw [if_neg (by omega)]
+  have h : ¬ (r + 1 ≥ U32) := by simp only [U32]; omega
+  simp only [if_neg h]
+  simp [refName, colLetters, dec]
+
+/-- every position of the grid A1..XFD1048576, written as a reference (upper- or lower-case letters),
+    reads back as exactly that position -/
+theorem a1_roundtrip (lower : Bool) (r c : Nat) (hr : r < 1048576) (hc : c < 16384) :
+    getRowCol (refName lower r c) = .ok (r, some c) :=
+  getRowCol_refName lower r c (by simp only [U32]; omega) (by simp only [U32]; omega)
+
+/-- `get_row_and_optional_column ∘ coordinate_to_name = id` on the grid -/
+theorem a1_roundtrip_coord (r c : Nat) (hr : r < 1048576) (hc : c < 16384) :
+    ∃ name, coordToName r c = .ok name ∧ getRowCol name = .ok (r, some c) :=
+  ⟨_, coord_name r c hr hc, a1_roundtrip false r c hr hc⟩
+
+/-- a row reference (`<row r="n">`) reads back as row `n-1` with no column -/
+theorem row_roundtrip (r : Nat) (hr : r < 1048576) : getRowCol (dec (r + 1)) = .ok (r, none) :=
+  getRowCol_dec r (by simp only [U32]; omega)
+
+/-- two positions never share a reference, whatever the case of the letters -/
+theorem a1_injective (l l' : Bool) (r c r' c' : Nat) (hr : r < 1048576) (hc : c < 16384)
+    (hr' : r' < 1048576) (hc' : c' < 16384) (h : refName l r c = refName l' r' c') : r = r' ∧ c = c' := by
+  have h1 := a1_roundtrip l r c hr hc
+  have h2 := a1_roundtrip l' r' c' hr' hc'
+  rw [h, h2] at h1
+  injection h1 with h1
+  injection h1 with ha hb
+  injection hb with hb
+  exact ⟨ha.symm, hb.symm⟩
+
+/-- (after ledger D30-a) no byte string makes `get_row_and_optional_column` panic: it returns a position
+    or an error. Before the fix, 7 letters or 10 digits overflowed `u32`. -/
+theorem a1_no_panic (s : Bytes) : (∃ v, getRowCol s = .ok v) ∨ (∃ e, getRowCol s = .err e) :=
+  getRowCol_total s
+
+/-- the `ref` of a `<dimension>`/`<mergeCell>` written for any rectangle of the grid reads back as it -/
+theorem dimension_roundtrip (d : Dims) (h1 : d.sr < 1048576) (h2 : d.sc < 16384) (h3 : d.er < 1048576)
+    (h4 : d.ec < 16384) : getDimension (dimRef d) = .ok d :=
+  getDimension_dimRef d (by simp only [U32]; omega) (by simp only [U32]; omega) (by simp only [U32]; omega)
+    (by simp only [U32]; omega)
+
+/-- (after ledger D30-c) `get_dimension` never panics — reversed rectangles included -/
+theorem dimension_no_panic (s : Bytes) : (∃ v, getDimension s = .ok v) ∨ (∃ e, getDimension s = .err e) := by
+  unfold getDimension
+  rcases mapParts_total (splitColon s) with ⟨v, h⟩ | ⟨e, h⟩
+  · rw [h]
+    match v with
+    | [] => exact Or.inr ⟨_, rfl⟩
+    | [p] => exact Or.inl ⟨_, rfl⟩
+    | [p, q] => exact Or.inl ⟨_, rfl⟩
+    | _ :: _ :: _ :: _ => exact Or.inr ⟨_, rfl⟩
+  · rw [h]; exact Or.inr ⟨_, rfl⟩
+
+example : getRowCol (refName true 1048575 16383) = .ok (1048575, some 16383) :=
+  a1_roundtrip true 1048575 16383 (by omega) (by omega)
+#guard refName true 1048575 16383 == [120, 102, 100, 49, 48, 52, 56, 53, 55, 54]   -- "xfd1048576"
 
 end XlsxCells
